@@ -1,6 +1,7 @@
 package main
 
 import (
+	"strconv"
 	"encoding/json"
 	"fmt"
 	"math/rand"
@@ -256,6 +257,9 @@ func encLen(cat []catItem, i, k int) int {
 
 func genHist(r *rand.Rand, enc *json.Encoder, cfg Cfg, id int, depth int) {
 	cat := loadCatalogue()
+	if n, err := strconv.Atoi(os.Getenv("PVH_CAT_N")); err == nil && n > 0 && n < len(cat) {
+		cat = cat[:n] // histories over the first n items only (the hand-picked ones: their values are chosen to collide)
+	}
 	bufsN := []string{"b1", "b2"}
 	type hold struct{ i, k int }
 	holds := map[string]hold{}
